@@ -60,7 +60,7 @@ func checkEvictionShortfall(c *Ctx, rule string) {
 	evictors := map[*ssa.Function]string{}
 	for _, t := range p.sqlTransitions("sqlite") {
 		if t.Kind == "delete" && t.HasFrom && t.From == ssParse("queued") && (t.Root == "Enqueue" || t.Root == "EnqueueBatch") && t.Stmt.Fn != nil {
-			if len(p.CallSitesOf(t.Stmt.Fn)) >= 4 {
+			if p.SharedBy(t.Stmt.Fn) >= 4 {
 				continue // retention prune helper
 			}
 			evictors[t.Stmt.Fn] = "sqlite"
